@@ -45,3 +45,11 @@ package rgsw
 //@ fieldorder Ciphertext
 //@   property C08
 //
+
+// A decoder stores what it decodes in the caller's object (C08; finding F41): see /verif/cmd/lvc/fieldordercheck.go
+//@ decodes Ciphertext.ReadFrom
+//@   property C08
+//
+//@ decodes Ciphertext.UnmarshalBinary
+//@   property C08
+//
